@@ -38,7 +38,10 @@ VARS = ['A', 'B', 'X']
 def make(case):
     # the scripted hooks sit *below* the tracer in the MRO, so a raising hook raises inside the tracer's super() call
     base = scripted.make_class(['A', 'B'], bases=(fsic.BaseModel,))
-    cls = type('Traced', (TracerMixin, base), {})
+    attrs = {}
+    if case.get('trace_name'):
+        attrs['TRACE_NAME'] = case['trace_name']      # the model may need the name `trace` for a variable of its own
+    cls = type('Traced', (TracerMixin, base), attrs)
     n = case.get('n', 3)
     m = cls(range(n), A=np.array([1.0 + i for i in range(n)]), B=np.array([10.0 * (i + 1) for i in range(n)]),
             X=np.array([0.5 * i for i in range(n)]))
@@ -77,7 +80,7 @@ def call(model, c, with_trace):
 
 def trace_state(model):
     return [(list(tr.names), list(tr.index), None if tr.is_empty() else np.array(tr.values, dtype=float))
-            for tr in model['trace']]
+            for tr in model[type(model).TRACE_NAME]]
 
 
 def check_case(case):
@@ -211,7 +214,8 @@ def strategy():
                 c['t'] = n + c['t']
             calls.append(c)
         hooks = draw(st.sampled_from([None, None, None, {'before': 'KeyError'}, {'after': 'ValueError'}, {'after': 'ZeroDivisionError'}]))
-        return {'n': n, 'script': draw(passes), 'hooks': hooks, 'calls': calls}
+        return {'n': n, 'script': draw(passes), 'hooks': hooks, 'calls': calls,
+                'trace_name': draw(st.sampled_from([None, None, 'history', 'tr_']))}
     return cases()
 
 
@@ -227,6 +231,8 @@ def gen_basic():
                             c = {'entry': entry, 't': 1, 'trace': trace,
                                  'opts': {'max_iter': max_iter, 'tol': 0.5, 'failures': failures}}
                             yield {'n': 3, 'script': script, 'calls': [c]}
+                            if max_iter == moves + 1:
+                                yield {'n': 3, 'script': script, 'calls': [c, c], 'trace_name': 'history'}
                             if failures == 'ignore' and entry != 'solve_period':
                                 yield {'n': 3, 'script': script, 'hooks': {'after': 'KeyError'}, 'calls': [c]}
                                 yield {'n': 3, 'script': script, 'hooks': {'before': 'ValueError'}, 'calls': [c]}
